@@ -1,1 +1,385 @@
-fn main() { eprintln!("not built yet"); std::process::exit(2); }
+//! vh-proto: drives the REAL runtime protocol code (stop-the-world / park / unpark / barrier, wait lists +
+//! mutex/condition natives, parallel-phase terminator) from scripted threads, under three execution modes:
+//! native stress (seeded perturbation at hook points, all-blocked detector), Miri (many seeds, exact deadlock and
+//! data-race verdicts), ThreadSanitizer. See /verif/DESIGN.md 2.6, C04, C09, C12.
+//!
+//! usage: vh-proto <stw|term|waitq> seed=N threads=N ops=N perturb=PERMILLE [shape=N] [items=N] [rounds=N]
+//! prints one JSON line per run on stdout; monitors print `VERIF-MONITOR ...` and exit with 94..97.
+use std::cell::UnsafeCell;
+use std::sync::Arc;
+use std::sync::atomic::{AtomicBool, AtomicI32, AtomicIsize, AtomicU64, AtomicUsize, Ordering};
+
+use dora_runtime::verif::{self, *};
+
+mod term;
+mod waitq;
+
+pub struct Params {
+    pub seed: u64,
+    pub threads: usize,
+    pub ops: usize,
+    pub perturb: u32,
+    pub shape: u64,
+    pub items: u64,
+    pub rounds: usize,
+}
+
+fn params() -> (String, Params) {
+    let args: Vec<String> = std::env::args().skip(1).collect();
+    let mut p = Params { seed: 1, threads: 3, ops: 8, perturb: 300, shape: 0, items: 12, rounds: 1 };
+    let mut mode = String::from("stw");
+    for a in &args {
+        if let Some((k, v)) = a.split_once('=') {
+            let n: u64 = v.parse().expect("numeric parameter");
+            match k {
+                "seed" => p.seed = n,
+                "threads" => p.threads = n as usize,
+                "ops" => p.ops = n as usize,
+                "perturb" => p.perturb = n as u32,
+                "shape" => p.shape = n,
+                "items" => p.items = n,
+                "rounds" => p.rounds = n as usize,
+                _ => panic!("unknown parameter {}", k),
+            }
+        } else {
+            mode = a.clone();
+        }
+    }
+    (mode, p)
+}
+
+pub fn rng(s: &mut u64) -> u64 {
+    *s ^= *s << 13;
+    *s ^= *s >> 7;
+    *s ^= *s << 17;
+    s.wrapping_mul(0x2545F4914F6CDD1D)
+}
+
+pub fn mix(seed: u64, k: u64) -> u64 {
+    let mut z = seed.wrapping_mul(0x9E3779B97F4A7C15).wrapping_add(k.wrapping_mul(0xBF58476D1CE4E5B9)).wrapping_add(0x94D049BB133111EB);
+    z = (z ^ (z >> 30)).wrapping_mul(0xBF58476D1CE4E5B9);
+    z = (z ^ (z >> 27)).wrapping_mul(0x94D049BB133111EB);
+    (z ^ (z >> 31)) | 1
+}
+
+pub fn harness_violation(prop: &str, code: i32, msg: &str) -> ! {
+    verif::violation(code, &format!("{} {}", prop, msg))
+}
+
+/// Starts the native all-blocked detector (not under Miri: Miri reports deadlocks itself).
+pub fn start_deadlock_monitor(what: &'static str) {
+    #[cfg(not(miri))]
+    {
+        std::thread::spawn(move || verif::deadlock_monitor_loop(20, 150, what));
+    }
+    #[cfg(miri)]
+    {
+        let _ = what;
+    }
+}
+
+pub fn print_counters(mode: &str, p: &Params, extra: &str) {
+    let mut s = format!("{{\"mode\":\"{}\",\"seed\":{},\"threads\":{},\"ops\":{},\"perturb\":{}{}", mode, p.seed, p.threads, p.ops, p.perturb, extra);
+    for (k, v) in verif::counters_snapshot() {
+        s.push_str(&format!(",\"{}\":{}", k, v));
+    }
+    s.push('}');
+    println!("{}", s);
+}
+
+// =====================================================================================================
+// stw: C04 -- no managed thread runs while the world is stopped.
+
+const MAX_SLOTS: usize = 16;
+struct Heap([UnsafeCell<u64>; MAX_SLOTS]);
+unsafe impl Sync for Heap {}
+static HEAP: Heap = Heap([const { UnsafeCell::new(0) }; MAX_SLOTS]);
+static MUTATING: [AtomicBool; MAX_SLOTS] = [const { AtomicBool::new(false) }; MAX_SLOTS];
+static REGISTERED: [AtomicBool; MAX_SLOTS] = [const { AtomicBool::new(false) }; MAX_SLOTS];
+static SLOT_OF_THREAD_ID: [AtomicUsize; 256] = [const { AtomicUsize::new(usize::MAX) }; 256];
+static DONE_OPS: AtomicUsize = AtomicUsize::new(0);
+static PLANNED_OPS: AtomicUsize = AtomicUsize::new(0);
+static STW_REQUESTED: AtomicUsize = AtomicUsize::new(0);
+static STW_CLOSURES: AtomicUsize = AtomicUsize::new(0);
+static NEXT_SLOT: AtomicUsize = AtomicUsize::new(0);
+static SPAWNED: AtomicUsize = AtomicUsize::new(0);
+static FINISHED: AtomicUsize = AtomicUsize::new(0);
+static IN_CLOSURE: AtomicIsize = AtomicIsize::new(-1);
+static JOIN_RESULTS: Heap = Heap([const { UnsafeCell::new(0) }; MAX_SLOTS]);
+static ORDER_TICKET: AtomicU64 = AtomicU64::new(0);
+static ORDER_HASH: AtomicU64 = AtomicU64::new(0);
+static SPAWN_DURING_STW: AtomicUsize = AtomicUsize::new(0);
+
+struct JoinTargets(UnsafeCell<Vec<Option<Arc<DoraThread>>>>);
+unsafe impl Sync for JoinTargets {}
+static JOIN_TARGETS: parking_lot::Mutex<Vec<(usize, Arc<DoraThread>)>> = parking_lot::Mutex::new(Vec::new());
+
+fn event(kind: u64, slot: usize) {
+    // order hash over the global sequence of protocol events (relaxed: adds no synchronisation)
+    let t = ORDER_TICKET.fetch_add(1, Ordering::Relaxed);
+    let h = (t.wrapping_mul(0x9E3779B97F4A7C15) ^ (kind << 8 | slot as u64)).wrapping_mul(0xBF58476D1CE4E5B9);
+    ORDER_HASH.fetch_xor(h.rotate_left((t % 63) as u32), Ordering::Relaxed);
+}
+
+fn poll(slot: usize) {
+    let t = current_thread();
+    if t.tld.state.load(Ordering::Relaxed) != ThreadState::Running as u8 {
+        MUTATING[slot].store(false, Ordering::Relaxed);
+        event(1, slot);
+        safepoint_slow();
+        verif::mutator_check("after poll");
+        MUTATING[slot].store(true, Ordering::Relaxed);
+    }
+}
+
+fn mutate(slot: usize, v: u64) {
+    // the "managed heap": plain non-atomic cells. A protocol error that lets a mutator overlap with a
+    // stop-the-world operation is a data race here (Miri/TSan) and trips the MUTATING flags natively.
+    if IN_CLOSURE.load(Ordering::Relaxed) >= 0 {
+        harness_violation("C04", EXIT_C04, &format!("mutator in slot {} touches the heap while a stop-the-world closure runs", slot));
+    }
+    unsafe {
+        let c = HEAP.0[slot].get();
+        *c = (*c).wrapping_add(v);
+    }
+}
+
+fn stw_closure(slot: usize, threads: &[Arc<DoraThread>]) {
+    let prev = IN_CLOSURE.swap(slot as isize, Ordering::Relaxed);
+    if prev != -1 {
+        harness_violation("C04", EXIT_C04, &format!("two stop-the-world closures overlap (slots {} and {})", prev, slot));
+    }
+    STW_CLOSURES.fetch_add(1, Ordering::Relaxed);
+    event(2, slot);
+    let check = |when: &str| {
+        for (i, m) in MUTATING.iter().enumerate() {
+            if i != slot && m.load(Ordering::Relaxed) {
+                harness_violation("C04", EXIT_C04, &format!("thread in slot {} is mutating {} of stop-the-world closure of slot {}", i, when, slot));
+            }
+        }
+    };
+    check("at start");
+    for t in threads {
+        let s = SLOT_OF_THREAD_ID[t.id() % 256].load(Ordering::Relaxed);
+        if s == usize::MAX || !REGISTERED[s].load(Ordering::Relaxed) {
+            harness_violation("C04", EXIT_C04, &format!("operation was given thread {} which is not registered", t.id()));
+        }
+    }
+    for c in HEAP.0.iter() {
+        unsafe { *c.get() = (*c.get()).wrapping_mul(3).wrapping_add(threads.len() as u64) };
+    }
+    verif::point(50);
+    check("after delay");
+    for c in HEAP.0.iter() {
+        unsafe { *c.get() = (*c.get()).wrapping_add(1) };
+    }
+    check("at end");
+    event(3, slot);
+    IN_CLOSURE.store(-1, Ordering::Relaxed);
+}
+
+thread_local! { static MY_SLOT: std::cell::Cell<usize> = const { std::cell::Cell::new(0) }; }
+
+fn collect_cb(_rt: &Runtime, threads: &[Arc<DoraThread>]) {
+    stw_closure(MY_SLOT.with(|s| s.get()), threads);
+}
+
+fn spawn_script_thread(rt: &'static Runtime, seed: u64, ops: usize, depth: usize) -> Option<usize> {
+    let slot = NEXT_SLOT.fetch_add(1, Ordering::Relaxed);
+    if slot >= MAX_SLOTS {
+        return None;
+    }
+    let th = DoraThread::new(rt, ThreadState::Parked);
+    SLOT_OF_THREAD_ID[th.id() % 256].store(slot, Ordering::Relaxed);
+    REGISTERED[slot].store(true, Ordering::Relaxed);
+    PLANNED_OPS.fetch_add(ops, Ordering::Relaxed);
+    SPAWNED.fetch_add(1, Ordering::Relaxed);
+    verif::thread_registered();
+    if rt.state().in_safepoint() {
+        SPAWN_DURING_STW.fetch_add(1, Ordering::Relaxed);
+    }
+    // as spawn_thread does: register first (parks/unparks the current thread), then start the OS thread
+    rt.threads.add_thread(th.clone());
+    JOIN_TARGETS.lock().push((slot, th.clone()));
+    event(4, slot);
+    std::thread::spawn(move || {
+        let t = init_current_thread(th);
+        MY_SLOT.with(|s| s.set(slot));
+        verif::point(51);
+        t.unpark(rt); // as thread_main does
+        script(rt, slot, seed, ops, depth);
+        unsafe {
+            *JOIN_RESULTS.0[slot].get() = 0xC0FFEE00 + slot as u64; // last write before exit
+        }
+        event(5, slot);
+        rt.threads.remove_current_thread();
+        REGISTERED[slot].store(false, Ordering::Relaxed);
+        verif::point(52);
+        t.stop();
+        FINISHED.fetch_add(1, Ordering::Relaxed);
+        verif::thread_finished();
+        deinit_current_thread();
+    });
+    Some(slot)
+}
+
+fn script(rt: &'static Runtime, slot: usize, mut seed: u64, ops: usize, depth: usize) {
+    MUTATING[slot].store(true, Ordering::Relaxed);
+    for _ in 0..ops {
+        match rng(&mut seed) % 16 {
+            0..=3 => {
+                // busy mutator: stays Running for a while, polling like compiled code does
+                let n = 1 + rng(&mut seed) % 24;
+                for k in 0..n {
+                    mutate(slot, k);
+                    for _ in 0..(rng(&mut seed) % 64) {
+                        std::hint::spin_loop();
+                    }
+                    poll(slot);
+                }
+            }
+            4..=5 => {
+                // native call
+                MUTATING[slot].store(false, Ordering::Relaxed);
+                event(6, slot);
+                parked_scope(|| {
+                    verif::point(53);
+                });
+                verif::mutator_check("after native call");
+                MUTATING[slot].store(true, Ordering::Relaxed);
+            }
+            6..=7 => {
+                MUTATING[slot].store(false, Ordering::Relaxed);
+                STW_REQUESTED.fetch_add(1, Ordering::Relaxed);
+                stop_the_world(rt, |threads| stw_closure(slot, threads));
+                MUTATING[slot].store(true, Ordering::Relaxed);
+            }
+            8 => {
+                // a forced collection through the real Gc path
+                MUTATING[slot].store(false, Ordering::Relaxed);
+                STW_REQUESTED.fetch_add(1, Ordering::Relaxed);
+                verif::force_collect(rt);
+                MUTATING[slot].store(true, Ordering::Relaxed);
+            }
+            9..=11 => {
+                // an allocation-failure style request: coalesced if somebody else collected meanwhile
+                MUTATING[slot].store(false, Ordering::Relaxed);
+                STW_REQUESTED.fetch_add(1, Ordering::Relaxed);
+                verif::request_collect(rt);
+                MUTATING[slot].store(true, Ordering::Relaxed);
+            }
+            12 => {
+                if depth < 2 {
+                    MUTATING[slot].store(false, Ordering::Relaxed);
+                    let s2 = mix(seed, slot as u64);
+                    spawn_script_thread(rt, s2, ops / 2 + 1, depth + 1);
+                    MUTATING[slot].store(true, Ordering::Relaxed);
+                }
+            }
+            13 => {
+                // join a thread spawned earlier (if any): join returns only after its last write is visible
+                let target = {
+                    let g = JOIN_TARGETS.lock();
+                    if g.is_empty() { None } else { Some(g[(rng(&mut seed) as usize) % g.len()].clone()) }
+                };
+                if let Some((tslot, th)) = target {
+                    // only younger threads (larger slot) may be joined: keeps the join graph acyclic
+                    if tslot > slot {
+                        MUTATING[slot].store(false, Ordering::Relaxed);
+                        event(7, slot);
+                        th.join();
+                        let v = unsafe { *JOIN_RESULTS.0[tslot].get() };
+                        if v != 0xC0FFEE00 + tslot as u64 {
+                            harness_violation("C09", EXIT_C09_WAITLIST, &format!("join returned before the joined thread's last write was visible (slot {} value {:#x})", tslot, v));
+                        }
+                        MUTATING[slot].store(true, Ordering::Relaxed);
+                    }
+                }
+            }
+            _ => {
+                mutate(slot, 7);
+                verif::point(54);
+                mutate(slot, 9);
+                poll(slot);
+            }
+        }
+        DONE_OPS.fetch_add(1, Ordering::Relaxed);
+    }
+    MUTATING[slot].store(false, Ordering::Relaxed);
+}
+
+fn run_stw(p: &Params) {
+    verif::configure_perturb(p.seed, p.perturb);
+    let rt: &'static Runtime = Box::leak(verif::new_runtime());
+    set_runtime(rt);
+    verif::set_collect_callback(collect_cb);
+    start_deadlock_monitor("C04");
+    // main thread registers as execute_on_main does
+    let main_thread = DoraThread::new(rt, ThreadState::Running);
+    init_current_thread(main_thread.clone());
+    rt.threads.add_main_thread(main_thread.clone());
+    verif::thread_registered();
+    let slot0 = NEXT_SLOT.fetch_add(1, Ordering::Relaxed);
+    SLOT_OF_THREAD_ID[main_thread.id() % 256].store(slot0, Ordering::Relaxed);
+    REGISTERED[slot0].store(true, Ordering::Relaxed);
+    PLANNED_OPS.fetch_add(p.ops, Ordering::Relaxed);
+    for i in 1..p.threads {
+        spawn_script_thread(rt, mix(p.seed, i as u64), p.ops, 0);
+    }
+    script(rt, slot0, mix(p.seed, 0), p.ops, 0);
+    // main waits for the others in native code (parked), polling a harness counter
+    parked_scope(|| {
+        verif::wait_enter(verif::W_HARNESS);
+        while FINISHED.load(Ordering::Acquire) < SPAWNED.load(Ordering::Acquire) {
+            #[cfg(miri)]
+            std::thread::yield_now();
+            #[cfg(not(miri))]
+            std::thread::sleep(std::time::Duration::from_micros(200));
+        }
+        verif::wait_leave(verif::W_HARNESS);
+    });
+    rt.threads.remove_current_thread();
+    REGISTERED[slot0].store(false, Ordering::Relaxed);
+    verif::thread_finished();
+    deinit_current_thread();
+    let done = DONE_OPS.load(Ordering::Relaxed);
+    let planned = PLANNED_OPS.load(Ordering::Relaxed);
+    if done != planned {
+        harness_violation("C04", EXIT_C04, &format!("threads completed {} of {} planned operations", done, planned));
+    }
+    let closures = STW_CLOSURES.load(Ordering::Relaxed);
+    let requested = STW_REQUESTED.load(Ordering::Relaxed);
+    let coalesced = verif::GC_COALESCED.load(Ordering::Relaxed);
+    if closures + coalesced != requested {
+        harness_violation("C04", EXIT_C04, &format!("{} operations requested, {} closures ran, {} coalesced", requested, closures, coalesced));
+    }
+    if rt.threads.threads.lock().len() != 0 {
+        harness_violation("C04", EXIT_C04, "thread list not empty at the end");
+    }
+    print_counters(
+        "stw",
+        p,
+        &format!(
+            ",\"done_ops\":{},\"stw_requested\":{},\"stw_closures\":{},\"spawned\":{},\"order_hash\":\"{:016x}\",\"spawn_during_stw\":{}",
+            done,
+            requested,
+            closures,
+            SPAWNED.load(Ordering::Relaxed),
+            ORDER_HASH.load(Ordering::Relaxed),
+            SPAWN_DURING_STW.load(Ordering::Relaxed)
+        ),
+    );
+}
+
+fn main() {
+    let (mode, p) = params();
+    match mode.as_str() {
+        "stw" => run_stw(&p),
+        "term" => term::run(&p),
+        "waitq" => waitq::run(&p),
+        m => panic!("unknown mode {}", m),
+    }
+}
+
+#[allow(dead_code)]
+fn _unused(_: &AtomicI32, _: &JoinTargets) {}
